@@ -354,6 +354,8 @@ def run(ctx, model_ok):
     wcases = []
     while len(wcases) < (80 if ctx.tier == "quick" else 600):
         c = C16.gen_case(rng)
+        if c.get("via") == "call":
+            continue              # the interpreter's trace function is per thread: a worker has none
         c["worker"] = True
         wcases.append(c)
     wimpl = C16.run_impl(wcases)
